@@ -71,7 +71,7 @@ Lemma new_blind_at : forall c H, no_embedding H -> blind_at H (new_make c).
 Proof.
   intros c H Hne st v v' T Hv Hv'. unfold new_make, new_make_gen.
   assert (Ef : find_struct v T = find_struct v' T) by (unfold find_struct; rewrite Hv, Hv'; reflexivity).
-  rewrite <- Ef. destruct (find_struct v T) as [[[fn h] s]|] eqn:E; auto.
+  rewrite <- Ef. destruct (has_prefix "_" T); auto. destruct (find_struct v T) as [[[fn h] s]|] eqn:E; auto.
   assert (Hs : Forall is_field (ss_items s)).
   { unfold find_struct in E.
     destruct (find (fun x : string * hfile * hdecl => match x with (_, _, HStruct s0) => ss_name s0 =? T | _ => false end) (pv_hand v))
@@ -90,6 +90,7 @@ Lemma new_cmd_sim : forall c c' st v T,
   same_body (fun (_ : nstate) d => new_render d) (fun (_ : nstate) d => new_render d) (new_make c st v T) (new_make c' st v T).
 Proof.
   intros c c' st v T Hg Hj Ho. unfold new_make, new_make_gen.
+  destruct (has_prefix "_" T); [exact I|].
   destruct (find_struct v T) as [[[fn h] s]|]; [|exact I].
   assert (E1 : extract_top (S (List.length (pv_hand v))) c v s = extract_top (S (List.length (pv_hand v))) c' v s).
   { unfold extract_top. rewrite Hg, Hj. reflexivity. }
@@ -143,11 +144,12 @@ Qed.
 
 Theorem new_unspecified_independent : forall o1 o2 c hw disk1 disk2 st1 st2,
   no_embedding (hand_of hw) -> specified c = false ->
+  no_eligible_gen CNew disk1 -> no_eligible_gen CNew disk2 ->
   generate (new_make c) nrender (list_types_of CNew) c o1 hw disk1 st1 =
   generate (new_make c) nrender (list_types_of CNew) c o2 hw disk2 st2.
 Proof.
-  intros o1 o2 c hw disk1 disk2 st1 st2 Hne Hs.
-  apply (generate_blind_history (new_make c) nrender (new_same_out c) hw (new_blind_at c _ Hne) CNew c Hs).
+  intros o1 o2 c hw disk1 disk2 st1 st2 Hne Hs Hn1 Hn2.
+  apply (generate_blind_history (new_make c) nrender (new_same_out c) hw (new_blind_at c _ Hne) CNew c Hs); auto.
 Qed.
 
 (* decidable form of the guard *)
@@ -168,6 +170,7 @@ Qed.
 Lemma new_stale : forall c st v T d s st', c_getset c = true -> new_make c st v T = MOk d s st' -> s = true.
 Proof.
   intros c st v T d s st' Hg H. unfold new_make, new_make_gen in H.
+  destruct (has_prefix "_" T); [discriminate|].
   destruct (find_struct v T) as [[[fn h] sx]|]; [|discriminate].
   unfold new_finish in H.
   match type of H with context [make_getset_loop ?a ?b ?cc ?dd ?e] => destruct (make_getset_loop a b cc dd e) as [[[[gl sl] gi] si] ms] end.
@@ -201,12 +204,15 @@ Proof.
 Qed.
 
 (* C07 for new, outside (a superset of) the input class of K_embed_order / K_aio_overlay_stale *)
+(* the directory holds no generated file declaring a struct `new` would select (the client struct of a rest output:
+   open finding K_new_selects_generated; new's own output only declares _json_T) *)
 Theorem new_run_independent : forall p c o1 o2 prior1 prior2,
   c_sub c = CNew -> specified c = false -> no_embedding (hand_of (p_hw p)) ->
+  no_eligible_gen CNew (disk_of p prior1) -> no_eligible_gen CNew (disk_of p prior2) ->
   run_generate o1 p prior1 c = run_generate o2 p prior2 c.
 Proof.
-  intros p c o1 o2 prior1 prior2 Hc Hs Hne. unfold run_generate. rewrite Hc.
-  apply (new_unspecified_independent o1 o2 c (p_hw p) _ _ nstate0 nstate0 Hne Hs).
+  intros p c o1 o2 prior1 prior2 Hc Hs Hne Hn1 Hn2. unfold run_generate. rewrite Hc.
+  apply (new_unspecified_independent o1 o2 c (p_hw p) _ _ nstate0 nstate0 Hne Hs Hn1 Hn2).
 Qed.
 
 From Shoot Require Import Proofs.GenSigmaProofs Proofs.GenPermProofs.
@@ -229,13 +235,78 @@ Proof.
   intros T st0 v. apply new_cmd_sim; auto.
 Qed.
 
+(* what `new` writes never declares a struct that `new` would select (only the _json_T helper) *)
+Definition elig1 (x : adecl) : list string :=
+  match d_kind x with KType => if has_prefix "_" (d_name x) then [] else [d_name x] | _ => [] end.
+
+Lemma eligible_gen_new : forall a, eligible_gen CNew a = flat_map elig1 (a_decls a).
+Proof.
+  intros a. unfold eligible_gen. apply flat_map_ext. intros x. unfold elig1. destruct (d_kind x); reflexivity.
+Qed.
+
+Lemma flat_map_map_nil : forall {A B C} (g : B -> list C) (f : A -> B) l, (forall x, g (f x) = []) -> flat_map g (map f l) = [].
+Proof. induction l as [|x l IH]; intros H; cbn; [reflexivity|]. rewrite H, IH; auto. Qed.
+
+Lemma new_render_not_eligible : forall st d, eligible_gen CNew (nrender st d) = [].
+Proof.
+  intros st d. rewrite eligible_gen_new. unfold nrender, new_render, mk_file. cbn [a_decls].
+  cbn [flat_map]. rewrite !flat_map_app. cbn [flat_map elig1 d_kind app].
+  repeat match goal with
+         | |- context [if ?b then _ else _] => destruct b
+         end;
+  cbn [flat_map elig1 d_kind d_name app]; rewrite ?flat_map_app; cbn [flat_map elig1 d_kind d_name app];
+  rewrite ?flat_map_map_nil by (intros; reflexivity);
+  repeat match goal with
+         | |- context [match ?l with [] => _ | _ :: _ => _ end] => destruct l
+         end; cbn [flat_map elig1 d_kind d_name app]; try reflexivity.
+Qed.
+
+Lemma in_upsert : forall {A} k (v : A) m e, In e (upsert k v m) -> e = (k, v) \/ In e m.
+Proof.
+  induction m as [|[k' v'] m IH]; intros e H; cbn in H.
+  - destruct H as [<-|[]]. auto.
+  - destruct (k' =? k); cbn in H.
+    + destruct H as [<-|H]; auto. right. right. exact H.
+    + destruct H as [<-|H]; [right; left; reflexivity|]. destruct (IH e H) as [E|Hin]; auto. right. right. exact Hin.
+Qed.
+
+Lemma in_fold_ups : forall {A} (l m : list (string * A)) e, In e (fold_left ups l m) -> In e l \/ In e m.
+Proof.
+  induction l as [|x l IH]; intros m e H; cbn in H; auto.
+  destruct (IH _ e H) as [Hl|Hm]; [left; right; exact Hl|].
+  unfold ups in Hm. apply in_upsert in Hm. destruct Hm as [->|Hm]; [left; left; destruct x; reflexivity | right; exact Hm].
+Qed.
+
+Lemma merge_not_eligible : forall fs m, (forall f, In f fs -> eligible_gen CNew f = []) -> merge fs = Some m -> eligible_gen CNew m = [].
+Proof.
+  intros fs m H Hm. rewrite eligible_gen_new, (merge_decls _ _ Hm).
+  clear Hm. induction fs as [|f fs IH]; [reflexivity|]. cbn. rewrite flat_map_app.
+  rewrite <- eligible_gen_new, (H f (or_introl eq_refl)). cbn. apply IH. intros g Hg. apply H. right. exact Hg.
+Qed.
+
 Theorem new_twice_fixpoint : forall p c o1 o2 prior w dir,
-  c_sub c = CNew -> specified c = false -> c_sepflag c = true -> no_embedding (hand_of (p_hw p)) ->
+  c_sub c = CNew -> specified c = false -> c_sepflag c = true \/ c_file c <> "" -> no_embedding (hand_of (p_hw p)) ->
+  no_eligible_gen CNew (p_aux p) -> no_eligible_gen CNew prior ->
   legal o1 -> legal o2 -> NoDup (keys prior) ->
   run o1 p prior c = ODone w dir ->
   exists w' dir', run o2 p dir c = ODone w' dir' /\ listing dir' = listing dir /\ Permutation w' w.
 Proof.
-  intros p c o1 o2 prior w dir Hc Hs Hsep Hne. apply run_twice_fixpoint.
-  - unfold separate. rewrite Hs, Hsep. reflexivity.
-  - intros. apply new_run_independent; auto.
+  intros p c o1 o2 prior w dir Hc Hs Hm Hne Haux Hprior H1 H2 Hn Hr.
+  assert (Hcl : forall v d, clean c (all_in_one_file c v) d = d).
+  { apply clean_inactive. destruct Hm as [E|E]; [left; unfold separate; rewrite E; apply orb_true_r | right; exact E]. }
+  apply (run_twice_fixpoint p c Hcl o1 o2 prior w dir H1 H2 Hn Hr).
+  assert (Hd1 : no_eligible_gen CNew (disk_of p prior)).
+  { intros e He. unfold disk_of, overlay_apply in He. apply in_fold_ups in He. destruct He; auto. }
+  assert (Hd2 : no_eligible_gen CNew (disk_of p dir)).
+  { intros e He. unfold disk_of, overlay_apply in He. apply in_fold_ups in He. destruct He as [He|He]; [|auto].
+    unfold run in Hr. destruct (run_generate o1 p prior c) as [sm|] eqn:Eg; [|discriminate].
+    assert (Hsm : forall e0, In e0 sm -> eligible_gen CNew (snd e0) = []).
+    { unfold run_generate in Eg. rewrite Hc in Eg.
+      apply (generate_prop (new_make c) (fun _ d => new_render d) (fun a => eligible_gen CNew a = [])
+               (fun st d => new_render_not_eligible st d) merge_not_eligible _ _ _ _ _ _ _ Eg). }
+    assert (Hdir : dir = fold_left (fun d e0 => upsert (fst e0) (snd e0) d) (o1 _ sm) prior).
+    { destruct sm; injection Hr as _ <-; [reflexivity | rewrite Hcl; reflexivity]. }
+    rewrite Hdir in He. apply (in_fold_ups (o1 _ sm) prior e) in He. destruct He as [He|He]; [|auto].
+    apply Hsm. eapply Permutation_in; [apply H1 | exact He]. }
+  apply new_run_independent; auto.
 Qed.
